@@ -329,7 +329,8 @@ def _seq_scenario(rnd, nkinds=None, maxlen=4):
 def _run_seq_scenario(sc, strategy):
     """execute a client script on the real mixin under the given scheduling strategy; returns the trace"""
     from .. import detsched as ds
-    s = ds.Scheduler(strategy, max_steps=50000)
+    s = ds.Scheduler(strategy, max_steps=8000)
+    s.stop_when = lambda: s.now > T0 + 300 * TICK        # a script needs far less than that
     w = SeqWorld(s, sc['fm'], tuple(sc['truthy']))
     ready = []
 
@@ -361,8 +362,8 @@ def _run_seq_scenario(sc, strategy):
             s.spawn(name, client, name, ops)
         s.run()
         exc = {n: repr(t.exc) for n, t in s.threads.items() if t.exc is not None}
-        stuck = s.deadlock or s.livelock
-        tr = [{'ev': 'init', 'fm': sc['fm']}] + w.log
+        stuck = s.deadlock or s.livelock or s.stopped
+        tr = [{'ev': 'init', 'fm': sc['fm']}] + w.log[:400]
         if not exc and not stuck:
             obs = w.observe()
             tr.append({'ev': 'quiet', 'cached': obs['cached'], 'live': {k: obs[k] for k in ('code', 'word', 'k')}})
@@ -446,29 +447,49 @@ def _run_sim(case, strategy=None):
     s = ds.Scheduler(strategy or ds.GuidedStrategy([]), max_steps=100000)
     shape, jit = case['shape'], case.get('jit', 0)
     rate = {'ramp': 15.0, 'speed': 0.25}.get(shape)       # units per tick (1/16) -> parameter value
-    extra = [x for x in (shape if shape != 'none' else None, 'jitter' if jit or case.get('jitpar') else None, 'xp') if x]
+    rated = shape in ('ramp', 'speed')
+    extra = [x for x in (shape if rated else None, 'jitter' if jit or case.get('jitpar') else None, 'xp') if x]
     cfg = {'description': '', 'extra_params': {'value': ','.join(extra)}, 'interval': {'value': TICK},
            'value': {'default': case['hv'] / S16}, 'target': {'default': case['target'] / S16}}
     # extra parameters are created read-only (Parameter default) although SimBase gives them a write method:
     # a configuration that wants them changeable says so
-    if shape != 'none':
+    if rated:
         cfg[shape] = {'default': case['ramp'] * rate, 'readonly': False}
+    if shape == 'readable':
+        del cfg['target'], cfg['interval']
+    if shape == 'writable':
+        del cfg['interval']
     if 'jitter' in extra:
         cfg['jitter'] = {'default': jit / S16}
-    cfg['xp'] = {'readonly': False}
+    if case.get('xpar', 'xp') == 'xp':
+        cfg['xp'] = {'readonly': False}
+    # the stored extra parameter is either one SimBase creates (xp) or the offset of the HasOffset feature
+    # ("this is just a storage!": nothing else may change when it is written)
+    xpar = case.get('xpar', 'xp')
+    if xpar == 'offset':
+        extra.remove('xp')
+        cfg['extra_params'] = {'value': ','.join(extra)}
+        cfg['value']['unit'] = 'K'
     tr = [{'ev': 'init', 'shape': shape, 'hv': case['hv'], 'target': case['target'],
-           'ramp': case['ramp'] if shape != 'none' else 0, 'jit': jit}]
+           'ramp': case['ramp'] if rated else 0, 'jit': jit, 'xpar': xpar}]
     info = {}
 
     def client():
         srv = ServerStub()
-        m = sim.SimDrivable('m', LoggerStub('m'), cfg, srv)
+        cls = {'writable': sim.SimWritable, 'readable': sim.SimReadable}.get(shape, sim.SimDrivable)
+        if xpar == 'offset':
+            from frappy.features import HasOffset
+            cls = type('Off' + cls.__name__, (HasOffset, cls), {})
+        m = cls('m', LoggerStub('m'), cfg, srv)
+        tr[0]['feature'] = 'HasOffset' in m.exportProperties().get('features', ())
+        tr[0]['xunit'] = m.parameters[xpar].datatype.unit == m.parameters['value'].datatype.unit
+        tr[0]['x0'] = _a16(getattr(m, xpar))
         srv.secnode.add_module(m, 'm')
         m.earlyInit()
         m.initModule()
         conn = Conn('c', srv.dispatcher)
         req = lambda *a: srv.dispatcher.handle_request(conn, a)
-        st = lambda: 'busy' if m.status[0] == m.Status.BUSY else 'idle' if m.status[0] == m.Status.IDLE else str(m.status[0])
+        st = lambda: m.status[0].name.lower()
         first = True
         for act, arg in case['ops']:
             if act == 'tick':
@@ -476,11 +497,11 @@ def _run_sim(case, strategy=None):
                 first = False
                 e = {'ev': 'tick', 'status': st(), 'val': _a16(m.value), 'hashv': not jit}
                 if not jit:
-                    e['hv'] = _a16(sim.SimReadable.read_value(m))
+                    e['hv'] = _a16(cls.read_value(m))
                 tr.append(e)
             elif act == 'target':
                 req('change', 'm:target', arg / S16)
-                tr.append({'ev': 'target', 'T': arg, 'target': _a16(m.target), 'status': st()})
+                tr.append({'ev': 'target', 'T': arg, 'target': _a16(m.target), 'status': st(), 'val': _a16(m.value)})
             elif act == 'stop':
                 req('do', 'm:stop', None)
                 tr.append({'ev': 'stop', 'target': _a16(m.target), 'status': st()})
@@ -491,10 +512,10 @@ def _run_sim(case, strategy=None):
                 rep = req('read', 'm:value', None)
                 tr.append({'ev': 'read', 'v': _a16(rep[2][0])})
             elif act == 'setx':
-                req('change', 'm:' + m.parameters['xp'].export, arg / S16)
+                req('change', 'm:' + m.parameters[xpar].export, arg / S16)
                 tr.append({'ev': 'setx', 'v': arg})
             elif act == 'readx':
-                rep = req('read', 'm:' + m.parameters['xp'].export, None)
+                rep = req('read', 'm:' + m.parameters[xpar].export, None)
                 tr.append({'ev': 'readx', 'v': _a16(rep[2][0])})
         info['done'] = True
 
@@ -508,8 +529,10 @@ def _run_sim(case, strategy=None):
 
 def _sim_case_from_behaviour(beh):
     i = beh[0]['init']
-    return {'shape': i['shape'], 'hv': i['hv'], 'target': i['target'], 'ramp': i['ramp'], 'jit': 0,
-            'ops': [(st['act'], st['arg']) for st in beh]}
+    ops = [(st['act'], st['arg']) for st in beh]
+    # which stored parameter the x actions address is the harness's choice (a stable function of the case)
+    xpar = 'offset' if sum(a for _, a in ops) // 16 % 2 else 'xp'
+    return {'shape': i['shape'], 'hv': i['hv'], 'target': i['target'], 'ramp': i['ramp'], 'jit': 0, 'xpar': xpar, 'ops': ops}
 
 
 def _sim_replay(beh):
@@ -520,16 +543,16 @@ def _sim_replay(beh):
 def _sim_random(args):
     seed, = args
     rnd = random.Random(seed)
-    shape = rnd.choice(['ramp', 'ramp', 'speed', 'none'])
+    shape = rnd.choice(['ramp', 'ramp', 'ramp', 'speed', 'speed', 'none', 'none', 'writable', 'readable'])
     grid = [0, 8, 16, 24, 40, 48, 72, 80, 84, 128]
     ops = []
     for _ in range(rnd.randint(4, 14)):
         r = rnd.random()
-        if r < 0.3:
+        if r < 0.3 and shape != 'readable':
             ops.append(('target', rnd.choice(grid)))
-        elif r < 0.38:
+        elif r < 0.38 and shape in ('ramp', 'speed', 'none'):
             ops.append(('stop', 0))
-        elif r < 0.46 and shape != 'none':
+        elif r < 0.46 and shape in ('ramp', 'speed'):
             ops.append(('ramp', rnd.choice([0, 8, 16, 24, 32, 64])))
         elif r < 0.54:
             ops.append(('read', 0))
@@ -540,8 +563,8 @@ def _sim_random(args):
         else:
             ops += [('tick', 0)] * rnd.randint(1, 4)
     case = {'shape': shape, 'hv': rnd.choice(grid), 'ramp': rnd.choice([0, 8, 16, 24, 32]), 'seed': seed,
-            'jit': rnd.choice([0, 0, 8, 32]), 'jitpar': rnd.random() < 0.5, 'ops': ops}
-    case['target'] = rnd.choice([case['hv'], case['hv'], rnd.choice(grid)])
+            'jit': rnd.choice([0, 0, 8, 32]), 'jitpar': rnd.random() < 0.5, 'ops': ops, 'xpar': rnd.choice(['xp', 'offset'])}
+    case['target'] = rnd.choice([case['hv'], case['hv'], rnd.choice(grid)]) if shape in ('ramp', 'speed', 'none') else case['hv']
     return (case,) + _run_sim(case)
 
 
